@@ -216,6 +216,7 @@ func captureDir(dir string) *DirState {
 // Name/Cleanup/Skip (so ordinal reset and skipping are the real runner's); Error and Log are
 // recorded instead of failing the driver.
 type recT struct {
+	par      bool // inside a subtree of parallel subtests: the directory is shared with running siblings
 	real     *testing.T
 	name     string
 	mu       sync.Mutex
@@ -451,16 +452,30 @@ func (in *Interp) RunTest(t *testing.T) {
 	in.mu.Unlock()
 	def := in.S.Tests[name]
 	in.tr.emit(&Event{Ev: "begin", T: name, Exec: ex})
+	var steps []*Step
+	if def != nil && len(def.Execs) > 0 {
+		i := ex - 1
+		if i >= len(def.Execs) {
+			i = len(def.Execs) - 1
+		}
+		steps = def.Execs[i]
+	}
+	note := ""
+	if hasParallel(steps) {
+		note = "resync" // parallel subtests wrote unobserved: this event re-reads the directory
+	}
 	// registered first, therefore run last: after go-snaps' own cleanups
-	t.Cleanup(func() { in.tr.emit(&Event{Ev: "end", T: name, Exec: ex, Dirs: in.statesIf("end")}) })
-	if def == nil || len(def.Execs) == 0 {
-		return
+	t.Cleanup(func() { in.tr.emit(&Event{Ev: "end", T: name, Exec: ex, Note: note, Dirs: in.statesIf("end")}) })
+	in.runSteps(t, steps, false)
+}
+
+func hasParallel(steps []*Step) bool {
+	for _, st := range steps {
+		if st.Op == "sub" && (st.Parallel || hasParallel(st.Steps)) {
+			return true
+		}
 	}
-	i := ex - 1
-	if i >= len(def.Execs) {
-		i = len(def.Execs) - 1
-	}
-	in.runSteps(t, def.Execs[i])
+	return false
 }
 
 func (in *Interp) statesIf(kind string) []*DirState {
@@ -470,20 +485,30 @@ func (in *Interp) statesIf(kind string) []*DirState {
 	return nil
 }
 
-func (in *Interp) runSteps(t *testing.T, steps []*Step) {
-	rt := &recT{real: t}
+func (in *Interp) runSteps(t *testing.T, steps []*Step, par bool) {
+	rt := &recT{real: t, par: par}
 	for _, st := range steps {
 		switch st.Op {
 		case "sub":
 			st := st
 			in.RunSub(t, st.Name, func(t *testing.T) {
 				name := t.Name()
+				cpar := par || st.Parallel
 				in.tr.emit(&Event{Ev: "begin", T: name, ID: st.ID})
-				t.Cleanup(func() { in.tr.emit(&Event{Ev: "end", T: name, ID: st.ID, Dirs: in.statesIf("end")}) })
+				t.Cleanup(func() {
+					ev := &Event{Ev: "end", T: name, ID: st.ID}
+					if !cpar {
+						ev.Dirs = in.statesIf("end")
+						if hasParallel(st.Steps) {
+							ev.Note = "resync"
+						}
+					}
+					in.tr.emit(ev)
+				})
 				if st.Parallel {
 					t.Parallel()
 				}
-				in.runSteps(t, st.Steps)
+				in.runSteps(t, st.Steps, cpar)
 			})
 		default:
 			in.step(nil, rt, st, t)
@@ -604,7 +629,8 @@ func (in *Interp) step(h *Hist, t *recT, st *Step, real *testing.T) {
 		panic("unknown op " + st.Op)
 	}
 	ev.Errs, ev.Logs = t.take()
-	if h != nil || in.S.State == "call" {
+	if (h != nil || in.S.State == "call") && !t.par {
+		// (between parallel siblings a directory capture would show their writes as this call's)
 		ev.Dirs = in.states(h)
 	}
 	in.tr.emit(ev)
